@@ -264,7 +264,7 @@ func jobC19(c *rt.Ctx) {
 	}
 	checkExpand := func(class string, b []byte, wantReduce bool) {
 		var x Bignum256
-		in := append([]byte{}, b...)
+		in := atAlign(b)
 		Expand(&x, in)
 		c.Step(1)
 		c.Class(class)
@@ -529,4 +529,19 @@ func jobC19(c *rt.Ctx) {
 			}
 		}
 	}
+}
+
+// atAlign returns a copy of b that starts at address = k (mod 8) inside a larger buffer and keeps
+// spare capacity behind it (callers hold keys and strings inside packed records, at any alignment).
+var alignCounter int
+
+func atAlign(b []byte) []byte {
+	alignCounter++
+	off := alignCounter & 7
+	buf := make([]byte, len(b)+24)
+	for i := range buf {
+		buf[i] = 0xA5
+	}
+	copy(buf[off:], b)
+	return buf[off : off+len(b)]
 }
